@@ -174,6 +174,20 @@ def check_remove(ctx, case):
         if (tuple(r.ranking) if r.ranking else ()) != i or (i and r.weight != b.weight):
             ctx.fail("remove_cand(single ballot): wrong image", case, {"got": canon.groups(r.ranking or ()), "exp": canon.groups(i)})
             return
+        # the scores of the surviving candidates stay with the ballot, and a ballot that keeps a ranking OR scores keeps its weight
+        si = simg(b)
+        if frozenset((r.scores or {}).items()) != si:
+            ctx.fail("remove_cand(single ballot): scores of the result are not the input's scores minus the removed candidates", case,
+                     {"got": sorted((str(k), str(v)) for k, v in (r.scores or {}).items()), "exp": sorted((str(k), str(v)) for k, v in si)})
+            return
+        if (i or si) and r.weight != b.weight:
+            ctx.fail("remove_cand(single ballot): a ballot that still lists or scores somebody lost its weight", case,
+                     {"got": str(r.weight), "exp": str(b.weight)})
+            return
+        if not i and not si and r.weight != 0:
+            ctx.fail("remove_cand(single ballot): an emptied ballot keeps weight", case, {"got": str(r.weight)})
+            return
+        ctx.count("single_ballot_contents_checked")
 
 
 def check_add_missing(ctx, case):
